@@ -407,15 +407,16 @@ VARIANTS += [
 VARIANTS += [
     ("C19-clean", "C19", None, "", "", None),
     ("C19-drift", "C19", IV, "            start = getattr(self.start, method)(**{unit: i})", "            start = getattr(start, method)(**{unit: amount})", "RANGE.no-drift"),
-    ("C19-i-start", "C19", IV, "        i = amount\n        while op(start, end):", "        i = 0\n        while op(start, end):", "RANGE.shape"),
+    ("C19-i-start", "C19", IV, "        i = amount\n        # The bounds", "        i = 0\n        # The bounds", "RANGE."),
     ("C19-i-advance", "C19", IV, "            i += amount\n", "            i += 1\n", "RANGE."),
-    ("C19-exclusive-end", "C19", IV, "        op = operator.le\n", "        op = operator.lt\n", "RANGE."),
-    ("C19-pair-mismatch", "C19", IV, '            method = "subtract"\n            op = operator.ge', '            method = "subtract"\n            op = operator.le', "RANGE.pairing"),
-    ("C19-selector", "C19", IV, "        if not self._absolute and self.invert:\n            method", "        if self.invert:\n            method", "RANGE.pairing"),
+    ("C19-exclusive-end", "C19", IV, "        while not (_is_after(end, start) if backwards else _is_after(start, end)):", "        while (_is_after(start, end) if backwards else _is_after(end, start)):", "RANGE."),
+    ("C19-wallclock-bounds", "C19", IV, "        while not (_is_after(end, start) if backwards else _is_after(start, end)):", "        while (start >= end) if backwards else (start <= end):", "RANGE.tabulated"),
+    ("C19-pair-mismatch", "C19", IV, "        while not (_is_after(end, start) if backwards else _is_after(start, end)):", "        while not (_is_after(start, end) if backwards else _is_after(start, end)):", "RANGE."),
+    ("C19-selector", "C19", IV, "        backwards = not self._absolute and self.invert\n", "        backwards = self.invert\n", "RANGE."),
     ("C19-yield-after", "C19", IV, "            yield start\n\n            start = getattr(self.start, method)(**{unit: i})\n\n            i += amount", "            start = getattr(self.start, method)(**{unit: i})\n\n            yield start\n\n            i += amount", "RANGE.order"),
     ("C19-iter-unit", "C19", IV, '        return self.range("days")', '        return self.range("hours")', "RANGE.iter"),
     ("C19-contains", "C19", IV, "        return self.start <= item <= self.end", "        return self.start <= item < self.end", "RANGE.contains"),
-    ("C19-rename-ok", "C19", IV, "        start, end = self.start, self.end\n\n        i = amount\n        while op(start, end):\n            yield start\n\n            start = getattr(self.start, method)(**{unit: i})", "        cur, end = self.start, self.end\n\n        i = amount\n        while op(cur, end):\n            yield cur\n\n            cur = getattr(self.start, method)(**{unit: i})", None),
+    ("C19-rename-ok", "C19", IV, "        start, end = self.start, self.end\n\n        i = amount\n        # The bounds are compared as instants: inside a repeated hour\n        # the wall clock of a later value can be the earlier one.\n        while not (_is_after(end, start) if backwards else _is_after(start, end)):\n            yield start\n\n            start = getattr(self.start, method)(**{unit: i})", "        cur, end = self.start, self.end\n\n        i = amount\n        while not (_is_after(end, cur) if backwards else _is_after(cur, end)):\n            yield cur\n\n            cur = getattr(self.start, method)(**{unit: i})", None),
 ]
 
 VARIANTS += [
